@@ -66,6 +66,7 @@ def _verify_one(item):
     reg, cs = load_contracts(modnames)
     c = reg.by_target[target]
     r = VF.verify_function(c, reg, cli=cli)
+    r.target = c.key
     return {
         "target": target,
         "status": r.status,
@@ -116,7 +117,7 @@ def monitor(contract, ncases, rng, on_case=None):
             rtc.check_call(contract, fn, args, kwargs, universe=case.get("universe"), check_pre=False, self_obj=self_obj)
         except rtc.ContractViolation as cv:
             return n, {"clause": cv.clause, "kind": cv.kind, "detail": cv.detail[:500], "input": desc,
-                       "case_seed": case_seed, "target": contract.target, "module": contract.module}
+                       "case_seed": case_seed, "target": contract.key, "module": contract.module}
         if on_case:
             on_case(desc)
     if n == 0:
@@ -147,7 +148,7 @@ def run_t1(rep: Report, modnames, pid=None, quick=True, monitor_cases=200):
     except (OSError, ValueError):
         baseline = {}
     rng = random.Random(seed() + 7)
-    items = [(tuple(modnames), c.target, False) for c in cs]
+    items = [(tuple(modnames), c.key, False) for c in cs]
     results = {}
     for st, r in pmap(_verify_one, items, chunk=1):
         if st != "ok":
@@ -158,9 +159,9 @@ def run_t1(rep: Report, modnames, pid=None, quick=True, monitor_cases=200):
     monitors = {}
     for c in cs:
         try:
-            monitors[c.target] = monitor(c, monitor_cases, rng)
+            monitors[c.key] = monitor(c, monitor_cases, rng)
         except Exception as e:  # noqa: BLE001
-            monitors[c.target] = (0, None)
+            monitors[c.key] = (0, None)
             rep.crash(f"monitor for {c.target}: {type(e).__name__}: {e}\n{traceback.format_exc(limit=5)}")
     # second opinion (CLI solvers on the SMT-LIB dump) only for functions whose
     # z3 verdict was 'unknown' and whose monitor found no concrete failing input
@@ -176,19 +177,19 @@ def run_t1(rep: Report, modnames, pid=None, quick=True, monitor_cases=200):
         if a not in rep.assumptions:
             rep.assumptions.append(a)
     for c in cs:
-        r = results.get(c.target)
+        r = results.get(c.key)
         if r is None:
             continue
         for a in c.assumptions:
             if a not in rep.assumptions:
                 rep.assumptions.append(f"{c.short}: {a}")
-        rep.functions_under_contract[c.target] = "T1 (proved, unbounded) + T3 monitor of the same contract"
+        rep.functions_under_contract[c.key] = "T1 (proved, unbounded) + T3 monitor of the same contract"
         for d in r["dropped"]:
             rep.dropped.append(f"{c.short}: {d}")
-        base = set(baseline.get(c.target, []))
+        base = set(baseline.get(c.key, []))
         # bounded monitor of the same contract: cross-check of the encoder and
         # source of concrete counterexamples
-        nmon, viol = monitors.get(c.target, (0, None))
+        nmon, viol = monitors.get(c.key, (0, None))
         rep.count(nmon)
         rep.fired(f"rtc:{c.short}", nmon)
         if r["status"] == "ok":
@@ -250,7 +251,7 @@ def write_baseline(modnames):
         baseline = json.load(open(BASELINE))
     except (OSError, ValueError):
         baseline = {}
-    items = [(tuple(modnames), c.target, True) for c in cs]
+    items = [(tuple(modnames), c.key, True) for c in cs]
     for st, r in pmap(_verify_one, items, chunk=1):
         if st == "ok" and r["status"] == "ok":
             baseline[r["target"]] = sorted({o["label"] for o in r["obligations"] if o["status"] == "discharged"})
